@@ -406,7 +406,7 @@ Definition hd_getitem_idx (h : headers) (i : Z) : res out :=
   end.
 Definition hd_or (h : headers) (a : harg) : res out :=
   match a with
-  | HADict _ => match hd_update h a with (h', None) => Ok (OPairs h') | (_, Some e) => Err e end
+  | HADict _ | HAMulti _ => match hd_update h a with (h', None) => Ok (OPairs h') | (_, Some e) => Err e end
   | _ => Err TypeError
   end.
 Definition CRLF : str := [13; 10].
